@@ -448,7 +448,7 @@ def run_bounded(ctx):
         "columns (tolerance rtol=1e-9; values are copied or multiplied by 0/1 only) identifies input rows",
     )
     max_rows = 4 if ctx.thorough else 3
-    ex_formulas = ["x", "x+A+y", "y~x|A"] if ctx.thorough else ["x+A+y"]
+    ex_formulas = ["x+A+y", "y~x|A"] if ctx.thorough else ["x+A+y"]
     with ctx.bounded(
         "null-patterns",
         rule="every null pattern of the three columns x (float), A (text), y (float) for every row count "
@@ -463,7 +463,7 @@ def run_bounded(ctx):
         tasks = list(exhaustive_cases(max_rows, ex_formulas))
         _merge(ctx, b, rep, K.run_pool(_worker, tasks, chunk=400))
 
-    reps = 60 if ctx.thorough else 3
+    reps = 40 if ctx.thorough else 3
     s_kinds = S_KINDS + (("rand",) if ctx.thorough else ())
     with ctx.bounded(
         "config-cross",
